@@ -90,6 +90,27 @@ theorem diagonal_ordered_perm (l : Lattice) :
     (l.diagonalNeighbors true).Perm (l.diagonalNeighbors false ++ (l.diagonalNeighbors false).map Prod.swap) :=
   diagonal_ordered_perm' l
 
+/-- `to_spin_orbital_index` is a bijection between (site, dof, spin) triples and `range(n_spin_orbitals)`:
+different triples never share a mode -/
+theorem spin_orbital_index_injective (l : Lattice) (s d σ s' d' σ' : Nat)
+    (hd : d < l.nDofs) (hσ : σ < l.nSpinValues) (hd' : d' < l.nDofs) (hσ' : σ' < l.nSpinValues)
+    (h : l.toSpinOrbitalIndex s d σ = l.toSpinOrbitalIndex s' d' σ') : s = s' ∧ d = d' ∧ σ = σ' :=
+  toSpinOrbitalIndex_inj l hd hσ hd' hσ' h
+
+theorem spin_orbital_index_lt (l : Lattice) (s d σ : Nat) (hs : s < l.nSites) (hd : d < l.nDofs)
+    (hσ : σ < l.nSpinValues) : l.toSpinOrbitalIndex s d σ < l.nSites * l.nSpinOrbitalsPerSite :=
+  toSpinOrbitalIndex_lt l hs hd hσ
+
+/-- `spin_pairs_iter(spin_pairs, ordered)` yields exactly the documented spin pairs
+(codes: 0 ALL, 1 SAME, otherwise DIFF) -/
+theorem spin_pairs_spec (l : Lattice) (sp : Nat) (ordered : Bool) (s t : Nat) :
+    (s, t) ∈ l.spinPairs sp ordered ↔ s < l.nSpinValues ∧ t < l.nSpinValues ∧
+      (match sp with
+       | 0 => ordered = true ∨ s ≤ t
+       | 1 => s = t
+       | _ => if ordered then s ≠ t else s < t) :=
+  mem_spinPairs l sp ordered s t
+
 /-! ### conservation laws from the term shapes
 
 `charge w t` = change of the total mode weight caused by the ladder term `t`;
